@@ -308,7 +308,8 @@ impl RuleDay {
     fn validate(&self) -> Result<(), TimeZoneError> {
         let valid = match self {
             RuleDay::JulianDayWithoutLeap(day) => *day >= 1 && *day <= 365,
-            RuleDay::JulianDayWithLeap(day) => *day <= 365,
+            // Day 365 only exists in leap years
+            RuleDay::JulianDayWithLeap(day) => *day <= 364,
             RuleDay::MonthWeekDay(month, week, day) => {
                 *month >= 1 && *month <= 12 && *week >= 1 && *week <= 5 && *day <= 6
             }
